@@ -801,8 +801,80 @@ theorem rec_fresh (now g : Nat) : Rec ({ now := now, nextGen := g } : Node) :=
 
 theorem recOK_empty : RecOK ({} : KV) := fun l hl => by cases hl
 
-/-- **one step, store faults included**: `GenInv` and `Rec` are kept by every operation but the factory reset -/
-theorem step_good (cfg : Cfg) (n : Node) (op : Op) (hg : GenInv n) (h : Rec n) (hop : op ≠ .freset) :
+/-- every store a factory reset passes through while it removes the fabric keys: the store before
+with some fabric keys removed (same resumption blob) -/
+theorem delFabricKeys_hist (hi : Nat) : ∀ (fuel i : Nat) (cur : KV) (acc : List KV),
+    ((delFabricKeys hi i fuel cur acc).1.resum = cur.resum ∧
+      ∀ j f', kvF (delFabricKeys hi i fuel cur acc).1 j = some f' → kvF cur j = some f') ∧
+    ∀ x ∈ (delFabricKeys hi i fuel cur acc).2, x ∈ acc ∨
+      (x.resum = cur.resum ∧ ∀ j f', kvF x j = some f' → kvF cur j = some f') := by
+  intro fuel
+  induction fuel with
+  | zero => intro i cur acc; exact ⟨⟨rfl, fun _ _ h => h⟩, fun x hx => Or.inl hx⟩
+  | succ fuel ih =>
+    intro i cur acc
+    simp only [delFabricKeys]
+    split
+    · exact ⟨⟨rfl, fun _ _ h => h⟩, fun x hx => Or.inl hx⟩
+    · split
+      · have ⟨⟨h1, h2⟩, h3⟩ := ih (i + 1) (cur.delFabric i) (cur.delFabric i :: acc)
+        have hsub : ∀ j f', kvF (cur.delFabric i) j = some f' → kvF cur j = some f' := by
+          intro j f' hj
+          rw [kvF_delFabric] at hj
+          split at hj
+          · cases hj
+          · exact hj
+        refine ⟨⟨h1, fun j f' hj => hsub j f' (h2 j f' hj)⟩, fun x hx => ?_⟩
+        rcases h3 x hx with hm | ⟨hr, hf⟩
+        · rcases List.mem_cons.mp hm with rfl | hm
+          · exact Or.inr ⟨rfl, hsub⟩
+          · exact Or.inl hm
+        · exact Or.inr ⟨hr, fun j f' hj => hsub j f' (hf j f' hj)⟩
+      · exact ih (i + 1) cur acc
+
+theorem recOK_of_sub {kv x : KV} (hr : x.resum = kv.resum) (hf : ∀ j f', kvF x j = some f' → kvF kv j = some f')
+    (h : RecOK kv) : RecOK x :=
+  fun l hl r hrl f' hk => h l (by rw [← hr]; exact hl) r hrl f' (hf _ _ hk)
+
+theorem recOK_absent {kv : KV} (h : kv.resum = .absent) : RecOK kv := fun l hl => by rw [h] at hl; cases hl
+
+/-- a factory reset - clean or hit by a store fault - keeps `Rec`: the resumption blob is gone, and
+every store it passes through is the old one with fabric keys removed -/
+theorem factoryReset_rec (n : Node) (hg : GenInv n) (h : Rec n) : Rec (factoryReset n).1 := by
+  have hok : RecOK n.kv := recOK_of hg h.live
+  have ⟨_, _, _, _, h5, _⟩ := factoryReset_mem n
+  refine ⟨(fun l hl => by rw [h5] at hl; cases hl), ?_⟩
+  unfold HistOK factoryReset
+  generalize (if n.failIn ≠ 0 then n.failIn else 256) = hi
+  have hd := delFabricKeys_hist hi 256 1 n.kv n.hist
+  rcases hdk : delFabricKeys hi 1 256 n.kv n.hist with ⟨kv1, hist1⟩
+  rw [hdk] at hd
+  simp only at hd
+  have hh1 : ∀ x ∈ hist1, RecOK x := by
+    intro x hx
+    rcases hd.2 x hx with hm | ⟨hr, hf⟩
+    · exact h.hist x hm
+    · exact recOK_of_sub hr hf hok
+  simp only [kvCommit]
+  intro x hx
+  have key : x ∈ hist1 ∨ x.resum = .absent := by
+    (repeat' split at hx) <;> simp only [hdk] at hx
+    all_goals
+      first
+        | exact Or.inl hx
+        | (rcases List.mem_cons.mp hx with rfl | hx
+           · first | exact Or.inr rfl | exact Or.inr (by simp_all)
+           · first
+              | exact Or.inl hx
+              | (rcases List.mem_cons.mp hx with rfl | hx
+                 · first | exact Or.inr rfl | exact Or.inr (by simp_all)
+                 · exact Or.inl hx))
+  rcases key with hm | ha
+  · exact hh1 x hm
+  · exact recOK_absent ha
+/-- **one step, store faults included**: `GenInv` and `Rec` are kept by every operation; a factory
+reset has to be clean (`ResetClean`: not hit by a store fault) -/
+theorem step_good (cfg : Cfg) (n : Node) (op : Op) (hg : GenInv n) (h : Rec n) (hop : op = .freset → ResetClean n) :
     GenInv (step cfg n op).1 ∧ Rec (step cfg n op).1 := by
   cases hso : isSessOp op with
   | some sid =>
@@ -914,19 +986,18 @@ theorem step_good (cfg : Cfg) (n : Node) (op : Op) (hg : GenInv n) (h : Rec n) (
     | nop => exact ⟨hg, h⟩
     | coldreset => exact ⟨genInv_fresh _ _, rec_fresh _ _⟩
     | fabrecover i => exact ⟨genInv_fresh _ _, rec_fresh _ _⟩
-    | freset => exact absurd rfl hop
+    | freset => exact ⟨factoryReset_genInv n (hop rfl), factoryReset_rec n hg h⟩
     | _ => simp [isSessOp] at hso
 
 /-- **every history, store faults and restarts together** -/
-theorem run_good (cfg : Cfg) (ops : List Op) : ∀ (n : Node), GenInv n → Rec n → Op.freset ∉ ops →
+theorem run_good (cfg : Cfg) (ops : List Op) : ∀ (n : Node), GenInv n → Rec n → ResetsClean cfg n ops →
     GenInv (run cfg n ops) ∧ Rec (run cfg n ops) := by
   induction ops with
   | nil => intro n hg h _; exact ⟨hg, h⟩
   | cons op rest ih =>
     intro n hg h hno
-    have hop : op ≠ .freset := fun he => hno (by rw [he]; exact List.mem_cons_self)
-    have ⟨hg', h'⟩ := step_good cfg n op hg h hop
-    exact ih _ hg' h' (fun hm => hno (List.mem_cons_of_mem _ hm))
+    have ⟨hg', h'⟩ := step_good cfg n op hg h hno.1
+    exact ih _ hg' h' hno.2
 
 theorem rec_init : Rec ({} : Node) := ⟨fun l hl => (by cases hl), fun kv hk => (by cases hk)⟩
 
